@@ -175,14 +175,10 @@ impl Fmt for PqFmt {
                         out = WOut::fail("close", e);
                     }
                 }
+                // into_inner() writes the footer itself (it is an error after finish())
                 Post::IntoInner => {
-                    if let Err(e) = w.finish() {
-                        out = WOut::fail("finish", e);
-                    }
                     if let Err(e) = w.into_inner() {
-                        if out.api_ok {
-                            out = WOut::fail("into_inner", e);
-                        }
+                        out = WOut::fail("into_inner", e);
                     }
                 }
             }
